@@ -128,3 +128,53 @@ PLAN['C17'] = {
     'exhaustive': {'quick': True, 'thorough': True},
     'assumptions': ['only mutations observable through the passed slices (contents, spare capacity) are detected'],
 }
+
+
+def light(name, acts, maxn, adds, stack=0, und=0, props=None, **kw):
+    st = {
+        'kind': 'gen_replay', 'name': name, 'module': 'LightClient', 'fam': 'light', 'spec': 'Spec', 'view': 'View',
+        'constants': {'MaxN': maxn, 'MaxAdds': adds, 'MaxStack': stack, 'MaxUnd': und, 'Acts': S(acts)},
+        'invariants': ['TypeOK'],
+    }
+    if props:
+        st['properties'] = props
+    st.update(kw)
+    return st
+
+
+# --------------------------------------------------------------------------- C07
+PLAN['C07'] = {
+    'stages': lambda tier, seed: (
+        [light('light_bfs', ['block'], 6, 3, props=['Sufficient'])] if tier == 'quick' else
+        [light('light_bfs', ['block'], 7, 4, props=['Sufficient'])]),
+    'rule': 'spec/LightClient.tla: from every reachable (n, live, held) TLC enumerates every block (all deletion subsets, '
+            '0..MaxAdds additions) with every subset of added-leaf indexes to remember; the harness runs the real pipeline '
+            'Stump.Update -> UpdateData -> Proof.Update from an empty cached proof and compares the (leaf, position) pairs '
+            'as a set and the proof hashes as a sequence with CanonProof(held\') of spec/Forest.tla, then Verify and a '
+            'full prover (Pollard.Prove) on the same leaves. TLC also checks the design theorem Sufficient (every hash of '
+            'the new canonical proof is an old proof hash, an old leaf hash or listed in UpdateDataRef). Non-trivial: the '
+            'block deletes or adds; distinct by (witness history, block, remember set).',
+    'bounds': {'quick': 'n<=6, adds 0..3, all remember subsets', 'thorough': 'n<=7, adds 0..4, all remember subsets'},
+    'exhaustive': {'quick': True, 'thorough': True},
+    'assumptions': ['free term algebra for hashes', 'exhaustive only within the stated bounds'],
+}
+
+# --------------------------------------------------------------------------- C08
+PLAN['C08'] = {
+    'stages': lambda tier, seed: (
+        [light('light_undo1', ['block', 'undoblock'], 5, 3, stack=1, und=1),
+         light('light_undo2', ['block', 'undoblock'], 4, 2, stack=2, und=2)] if tier == 'quick' else
+        [light('light_undo1', ['block', 'undoblock'], 6, 3, stack=1, und=1),
+         light('light_undo2', ['block', 'undoblock'], 5, 3, stack=2, und=2),
+         light('light_undo3', ['block', 'undoblock'], 5, 2, stack=3, und=3)]),
+    'rule': 'spec/LightClient.tla with the undo stack in the state: every block of every reachable (n, live, held) is '
+            'applied to the real cached proof and undone with Proof.Undo (block data from the specification), newest '
+            'first to depth 1..3, and every continuation (further blocks on the same or another branch) is explored. After '
+            'each undo the client must hold exactly held \\ added with the canonical proof in the pre-block forest, and it '
+            'must verify against the previous stump. Non-trivial: the line contains an undo; distinct by (witness history, step).',
+    'bounds': {'quick': 'depth 1: n<=5, adds 0..3; depth 2: n<=4, adds 0..2',
+               'thorough': 'depth 1: n<=6, adds 0..3; depth 2: n<=5; depth 3: n<=5, adds 0..2'},
+    'exhaustive': {'quick': True, 'thorough': True},
+    'assumptions': ['free term algebra for hashes', 'leaves the undone block itself deleted are not restored (documented)',
+                    'exhaustive only within the stated bounds'],
+}
